@@ -387,6 +387,9 @@ def check_C11(tier, seed):
             + families.fam_rand(tier, seed, 4 if tier == "quick" else 30, "ws") + (sr[2::7] if tier == "quick" else sr))
     # skip rules that start with a zero-width predicate: if their body ever ran with implicit skipping on, the skip would re-enter itself
     more += [g for g in sr if g not in more and ('{ !"##"' in g["text"].splitlines()[0] or '{ &"#"' in g["text"].splitlines()[0])][: (6 if tier == "quick" else 40)]
+    # stack slices with reversed / out-of-range bounds at some depths, zero-width stack iterations: every parse still returns
+    sl = families.fam_slices(tier)
+    more += families.fam_trig(tier) + [dict(g, inputs=g["inputs"][::5]) for g in sl[1:8:3]] if tier == "quick" else families.fam_trig(tier) + sl
     mread = peg.pest_read(more, "c11")
     for g, r in zip(more, mread):
         g["rules"] = r["rules_src"]
@@ -434,7 +437,7 @@ def check_C11(tier, seed):
     wf = [g for g in grams if verdict[g["id"]]["wellfounded"]]
     rnd = random.Random(seed)
     rnd.shuffle(wf)
-    wf = [g for g in wf if g["id"].startswith("sr")] + [g for g in wf if not g["id"].startswith("sr")][: (40 if tier == "quick" else 300)]
+    wf = [g for g in wf if g["id"].startswith(("sr", "sl", "tg"))] + [g for g in wf if not g["id"].startswith(("sr", "sl", "tg"))][: (40 if tier == "quick" else 300)]
     for g in wf:
         g.setdefault("alphabet", cps("ab1 #"))
         g["maxlen"] = 3 if tier == "quick" else 4
@@ -451,6 +454,12 @@ def check_C11(tier, seed):
     def cmp_term(rec, job, obs, gram):
         if obs.get("timeout") or obs.get("crash") is not None or obs.get("missing"):
             return [("parse does not return", "returns", obs)]
+        # unwinding out of the parser is not a return either (the harness catches the panic per entry point)
+        for form in props.forms_of(obs):
+            for k in ("pp", "pf", "cp", "cf"):
+                o = props.typed_form(obs, form, k)
+                if isinstance(o, dict) and "panic" in o:
+                    return [("%s.%s: the parse panicked" % (form, k), "Ok or Err", o)]
         return []      # verdicts are C01's business; here only that the call returns
     rows = props.run_generic(ctx, "c11", allg, "s", cmp_term, with_pest=False)
     ctx.notes["wellfounded_grammars_run"] = len(allg)
